@@ -406,6 +406,17 @@ func (m *Model) RunTruthUsers(s *Sink, rule string) {
 				continue
 			}
 		}
+		// the ternary: decided by case evaluation over the rows of the truthiness table
+		if st.fn == "evalTernaryExp" {
+			if bad, decided, _ := m.ternaryCases(); decided {
+				if bad == "" {
+					s.OK(rule, key, "-", "case evaluation of Eval on an abstract `c ? a : b`: a exactly for truthy conditions (13 condition values, none a singleton), b for falsy ones, the error for a failing one")
+				} else {
+					s.Violation(rule, key, "-", "the ternary: %s — its condition is not decided by the truthiness table of C02", bad)
+				}
+				continue
+			}
+		}
 		if fn == nil {
 			s.Undecided(rule, key, "-", "%s not found (anchor of C02/C03)", st.fn)
 			continue
@@ -620,6 +631,29 @@ func (m *Model) runBranchIf(s *Sink, rule string) {
 }
 
 func (m *Model) runBranchTernary(s *Sink, rule string) {
+	// decided by case evaluation (rule_ifcases.go); the structural reading below is the diagnosis and the decision
+	// when the cases cannot be evaluated
+	if bad, decided, _ := m.ternaryCases(); decided {
+		key := "ternary by cases|the condition once, then exactly the chosen part, its result unchanged"
+		if bad == "" {
+			s.OK(rule, key, "-", "case evaluation of Eval on an abstract `c ? a : b` over 13 condition values, with ordinary and failing parts")
+			sub := NewSink()
+			m.runBranchTernaryShape(sub, rule)
+			for _, o := range sub.Obls {
+				if o.Status == Violated || o.Status == Undecided {
+					s.OK(o.Rule, o.Key, o.Pos, "the code does not have the shape this structural reading expects (%s); decided by case evaluation instead", o.Detail)
+				} else {
+					s.Obls = append(s.Obls, o)
+				}
+			}
+			return
+		}
+		s.Violation(rule, key, "-", "the ternary: %s", bad)
+	}
+	m.runBranchTernaryShape(s, rule)
+}
+
+func (m *Model) runBranchTernaryShape(s *Sink, rule string) {
 	tf := m.Method("evaluator", "Evaluator", "evalTernaryExp")
 	if tf == nil {
 		s.Undecided(rule, "evalTernaryExp", "-", "evalTernaryExp not found")
